@@ -350,3 +350,31 @@ Proof. exact nonuniform_single. Qed.
 Theorem nonuniform_partition_given_limits : forall (cs : list R) (lo hi : R),
   nonuniform_axis cs (Some lo) (Some hi) (false, false) = Ok (mkAxis lo hi cs).
 Proof. exact nonuniform_given. Qed.
+
+(* ------------------------------------------------------------------ *)
+(* T2. All index expressions: normalized_index_expression reduces every accepted expression to
+   the case "one slice per axis" covered by [getitem_acts_axiswise]:
+   - a scalar i is (i, Ellipsis), a single slice / Ellipsis is a 1-tuple (by definition of items_of);
+   - an Ellipsis stands for ndim - (number of other entries) full slices;
+   - fewer entries than axes are filled up with full slices from the right;
+   - an in-range integer i becomes the one-cell slice i':i'+1 ([to_slice]). *)
+Theorem ellipsis_expands_to_full_slices : forall (strict its : bool) (pre post : list item) (shape : list Z),
+  existsb is_ell pre = false -> existsb is_ell post = false ->
+  (length pre + length post <= length shape)%nat ->
+  norm_index strict (ETuple (pre ++ IEll :: post)) shape its =
+  norm_index strict (ETuple (pre ++ repeat full_slice (length shape - length pre - length post) ++ post)) shape its.
+Proof. exact norm_index_ellipsis. Qed.
+Print Assumptions ellipsis_expands_to_full_slices.
+Theorem too_few_indices_are_filled_from_the_right : forall (strict its : bool) (items : list item) (shape : list Z),
+  existsb is_ell items = false -> (length items < length shape)%nat ->
+  norm_index strict (ETuple items) shape its =
+  norm_index strict (ETuple (items ++ repeat full_slice (length shape - length items))) shape its.
+Proof. exact norm_index_too_few. Qed.
+Theorem getitem_ints_and_slices_axiswise : forall (strict : bool) (p : list (axis R)) (items : list item),
+  Forall valid p -> Forall2 int_ok items (shape_of p) ->
+  Forall2 good_item p (map2 to_slice items (shape_of p)) ->
+  empty_slice_check (map2 to_slice items (shape_of p)) (shape_of p) = false ->
+  getitem strict p (ETuple items) = Ok (map2 sub_item p (map2 to_slice items (shape_of p))) /\
+  Forall valid (map2 sub_item p (map2 to_slice items (shape_of p))).
+Proof. exact getitem_ints_and_slices. Qed.
+Print Assumptions getitem_ints_and_slices_axiswise.
